@@ -4,7 +4,7 @@
    that reading agrees with the bit-level one, for every operand, and that every instruction maps words
    to words.  Nothing here mentions halmos: it narrows what has to be trusted about the spec itself. *)
 From Coq Require Import ZArith Bool Lia ZifyBool.
-From HV Require Import Base.Word.
+From HV Require Import Base.Word Base.SmtBV.
 Open Scope Z_scope.
 
 Local Lemma W_pos : 0 < W. Proof. reflexivity. Qed.
@@ -230,4 +230,51 @@ Proof.
   assert (Hlow : 0 <= x mod 2 ^ n < 2 ^ n) by (apply Z.mod_pos_bound; exact Hpn).
   assert (2 ^ n < W). { rewrite W_val. apply Z.pow_lt_mono_r; lia. }
   unfold in_word. destruct (x mod 2 ^ n <? 2 ^ (n - 1)); lia.
+Qed.
+
+(* -- the SMT-LIB reading (Base/SmtBV.v): extract and concat are the bit operations -------------------- *)
+Lemma smt_extract_is_shift_mask hi lo x : 0 <= lo <= hi ->
+  bvextract hi lo x = Z.land (Z.shiftr x lo) (Z.ones (hi - lo + 1)).
+Proof.
+  intros H. unfold bvextract. rewrite Z.shiftr_div_pow2 by lia. rewrite Z.land_ones by lia. reflexivity.
+Qed.
+Lemma smt_extract_bits hi lo x i : 0 <= lo <= hi -> 0 <= i ->
+  Z.testbit (bvextract hi lo x) i = if i <? hi - lo + 1 then Z.testbit x (i + lo) else false.
+Proof.
+  intros H Hi. unfold bvextract. destruct (i <? hi - lo + 1) eqn:E.
+  - rewrite Z.mod_pow2_bits_low by lia. apply Z.div_pow2_bits; lia.
+  - apply Z.mod_pow2_bits_high; lia.
+Qed.
+Lemma smt_concat_is_lor m x y : 0 <= m -> 0 <= y < 2 ^ m ->
+  bvconcat m x y = Z.lor (Z.shiftl x m) y.
+Proof.
+  intros Hm Hy. unfold bvconcat. rewrite <- Z.shiftl_mul_pow2 by lia.
+  assert (D : Z.land (Z.shiftl x m) y = 0).
+  { apply Z.bits_inj'; intros n Hn. rewrite Z.land_spec, Z.bits_0.
+    destruct (Z_lt_le_dec n m) as [Hl|Hg].
+    - rewrite Z.shiftl_spec_low by lia. reflexivity.
+    - rewrite <- (Z.mod_small y (2 ^ m)) by lia. rewrite Z.mod_pow2_bits_high by lia.
+      apply andb_false_r. }
+  rewrite Z.add_nocarry_lxor by exact D. apply Z.lxor_lor. exact D.
+Qed.
+Lemma smt_concat_bits m x y i : 0 <= m -> 0 <= y < 2 ^ m -> 0 <= i ->
+  Z.testbit (bvconcat m x y) i = if i <? m then Z.testbit y i else Z.testbit x (i - m).
+Proof.
+  intros Hm Hy Hi. rewrite smt_concat_is_lor by assumption. rewrite Z.lor_spec.
+  destruct (i <? m) eqn:E.
+  - rewrite Z.shiftl_spec_low by lia. reflexivity.
+  - rewrite Z.shiftl_spec by lia.
+    rewrite <- (Z.mod_small y (2 ^ m)) by lia. rewrite Z.mod_pow2_bits_high by lia.
+    apply orb_false_r.
+Qed.
+(* extract undoes concat: the two halves come back *)
+Lemma smt_extract_concat m k x y : 0 < m -> 0 < k -> 0 <= y < 2 ^ m -> 0 <= x < 2 ^ k ->
+  bvextract (m - 1) 0 (bvconcat m x y) = y /\ bvextract (m + k - 1) m (bvconcat m x y) = x.
+Proof.
+  intros Hm Hk Hy Hx. unfold bvextract, bvconcat. assert (0 < 2 ^ m) by (apply Z.pow_pos_nonneg; lia).
+  split.
+  - rewrite Z.pow_0_r, Z.div_1_r. replace (m - 1 - 0 + 1) with m by lia.
+    rewrite Z.add_comm, Z.mod_add by lia. apply Z.mod_small; lia.
+  - replace (m + k - 1 - m + 1) with k by lia.
+    rewrite Z.add_comm, Z.div_add by lia. rewrite Z.div_small by lia. apply Z.mod_small; lia.
 Qed.
